@@ -79,6 +79,24 @@ def check_core_family(prop, tier):
         extra_viol = extra_viol + r["violations"]
         extra_cov.update({"builder_histories_executed": r["n"], "builder_builds_read_back": r["nbuilds"],
                           "builder_model_states": r["states"]})
+    if prop in ("C05", "C06"):
+        # set_footer / set_implicit_assertion histories with two values each and the empty string, on both
+        # builders (the token is bound to the pair set last) and on both parsers (reconfigured between parses)
+        for fam in ("c05b", "c05g"):
+            conf = dict(fam=fam, rnd=(0, 0), nonce=(0, 0), whys=(prop,), deep=True, allprotos=True)
+            r = builder_pipeline(prop + fam[-1], tier, conf)
+            for v in r["violations"]:
+                v["props"] = [prop]
+            extra_viol = extra_viol + r["violations"]
+            extra_cov["builder_histories_executed"] = extra_cov.get("builder_histories_executed", 0) + r["n"]
+            extra_cov["builder_builds_read_back"] = extra_cov.get("builder_builds_read_back", 0) + r["nbuilds"]
+        for fam in ("c05", "c05p"):
+            r = parser_pipeline(prop + fam[3:], tier, fam, (prop,), need=('"res":"ok"', '"res":"pre"'))
+            for v in r["violations"]:
+                v["props"] = [prop]
+            extra_viol = extra_viol + r["violations"]
+            extra_cov["parser_histories_executed"] = extra_cov.get("parser_histories_executed", 0) + r["n"]
+            extra_cov["parser_parses"] = extra_cov.get("parser_parses", 0) + r["nparse"]
     if prop == "C04":
         # one parser object, the same token presented again under another key (call histories)
         r = parser_pipeline(prop, tier, "c15", ("C04",), cfgname="c04")
@@ -358,7 +376,7 @@ PARSER_ASSUMPTIONS = [
 ]
 
 
-def parser_pipeline(prop, tier, fam, whys, sweep=0, cfgname=None):
+def parser_pipeline(prop, tier, fam, whys, sweep=0, cfgname=None, need=('"res":"ok"', '"res":"claim"')):
     thorough = tier == "thorough"
     cfg = "MC_Parser_%s%s.cfg" % (cfgname or fam, "_thorough" if thorough else "")
     res = verif.run_tlc("MC_Parser.tla", cfg, workers=8, timeout=3000)
@@ -412,7 +430,7 @@ def parser_pipeline(prop, tier, fam, whys, sweep=0, cfgname=None):
                     smp["ops"] = smp["ops"][:8] + ["... %d more calls" % (len(smp["ops"]) - 8)]
                     smp["toks"] = smp["toks"][:8] + ["..."]
                 sample.append(smp)
-    if hist.get('"res":"ok"', 0) == 0 or hist.get('"res":"claim"', 0) == 0:
+    if any(hist.get(k, 0) == 0 for k in need):
         raise ToolError("vacuous parser run (%s): observed outcomes %s" % (fam, hist))
     if hist.get('"res":"late"', 0) > n // 2:
         raise ToolError("the machine was too slow for the time-passing histories: %d late parses" % hist['"res":"late"'])
@@ -540,7 +558,10 @@ def check_terms(prop, tier):
     out2 = os.path.join(verif.WORK, "minted_C08_%s.json" % tier)
     verif.run_pv(["minted-checks", "--prop", "C05", "--tier", tier, "--seed", str(verif.seed()), "--out", out2])
     s2 = _summary(out2)
-    viol = s["violations"] + [dict(v, props=["C08"]) for v in s2["violations"]]
+    # "footer segment present iff the footer is non-empty" also for a core builder object that is re-used with
+    # another footer (spec/CoreObj.tla histories, footer segment observed after every mint)
+    co = coreobj_pipeline("C08", tier)
+    viol = s["violations"] + [dict(v, props=["C08"]) for v in s2["violations"]] + co["violations"]
     fresh = verif.report(prop, viol, tier)
     coverage = {
         "states": max(1, res["distinct"]),
@@ -557,6 +578,7 @@ def check_terms(prop, tier):
                 "(protocol, key, nonce, message, footer, assertion) inputs; plus %d produced tokens whose footer segment is checked"
                 % (s["pinned_vectors"], s2["evaluations"]),
         "pinned_vectors": s["pinned_vectors"],
+        "core_object_histories": co["n"], "core_object_mints_read_back": co["nmint"],
         "tlc_invariants": "Inv_Binds (every protocol's terms mention exactly the inputs it binds)",
         "exhaustive": False,
     }
@@ -564,7 +586,7 @@ def check_terms(prop, tier):
                          ["the evaluator shares primitive crates (hmac, sha2, hkdf, blake2, chacha20, aes, ed25519-dalek, p384, ring) with the library but no protocol code",
                           "official vectors (fixtures/vectors.json, extracted from the PASETO test-vector files shipped in the repository's tests): v1-v4 local 9 each, v2-v4 public 3 each; v1.public has no deterministic vector",
                           "TLA+ fixes the structure of the algorithm; primitive semantics come from the interpreter"],
-                         time.time() - t0, s["nviol"] + len(s2["violations"]), level="exploration")
+                         time.time() - t0, s["nviol"] + len(s2["violations"]) + len(co["violations"]), level="exploration")
     return 1 if fresh > 0 else 0
 
 
